@@ -205,6 +205,9 @@ def run(m, tier):
     results.append(guard_rules.alt_delimiter_rule(m, "C14.R9", "C99Preprocessor"))
     from rules import regex_rules
     results.append(regex_rules.c14_detector_rule(m, "C14.R10"))
+    r11 = C11.r11_strict_order(m, blocks, "C14.R11")
+    r11.title = "a block that enforces the order of its classes lists only parts: the cpp-directive matcher is appended after the listed classes, so elsewhere a directive between two statements would end their matching"
+    results.append(r11)
     from rules import shapes_rules
     results += shapes_rules.c14_rules(m)
     expl = ("Decides structural clauses of C14: registry exhaustiveness (Cpp_*_Stmt classes == CPP_CLASS_NAMES); for each of the 14 "
